@@ -523,6 +523,12 @@ impl<'a> Tr<'a> {
                     Ok(Val { s: format!("(Casts.slice_get {} {})", recv.s, i.s), ty: Ty::Option(elem.clone()) })
                 }
                 ("len", 0) => Ok(Val { s: format!("(Z.of_nat (length {}))", recv.s), ty: Ty::int(IntTy::Usize) }),
+                ("last", 0) => Ok(Val { s: format!("(Casts.slice_last {})", recv.s), ty: Ty::Option(elem.clone()) }),
+                ("first", 0) => Ok(Val { s: format!("(List.hd_error {})", recv.s), ty: Ty::Option(elem.clone()) }),
+                ("windows", 1) if matches!(strip_parens(args[0]), Expr::Lit(ExprLit { lit: Lit::Int(i), .. }) if i.base10_digits() == "3") => {
+                    // `s.windows(3)`: the iterator is the part of the slice not yet passed
+                    Ok(Val { s: recv.s.clone(), ty: Ty::Windows(elem.clone()) })
+                }
                 ("is_empty", 0) => Ok(Val { s: format!("(Z.of_nat (length {}) =? 0)", recv.s), ty: Ty::Bool }),
                 _ => Err(unsupported(at, &format!("slice method `{}` (only get(index), len, is_empty and the `get_mut(i).ok_or(e).map(|b| *b = v)` idiom are translated)", name))),
             },
@@ -799,6 +805,12 @@ impl<'a> Tr<'a> {
                 Ok(Val { s: format!("(match {r} with | Some {p} => if {b} then {k} else None | None => None end)", r = recv.s, p = p, b = b.s, k = keep), ty: recv.ty.clone() })
             }
             ("copied", 0) | ("cloned", 0) | ("clone", 0) => Ok(recv),
+            ("unwrap", 0) if !self.fuel => {
+                // in a function that is fuelled anyway (result in `option`) unwrap on None gives None: try that
+                self.needs_fuel = true;
+                self.unwrap_retry = true;
+                Err(unsupported(at, "`unwrap()` (panics; only translated in a fuelled function, where None = no value)"))
+            }
             _ => Err(unsupported(at, &format!("Option method `{}` (not in the whitelist; unwrap/expect panic and are not translated)", name))),
         }
     }
